@@ -242,34 +242,268 @@ Qed.
 (* ------------------------------------------------------------------------- *)
 (* the monitor accepts every run of the model                                 *)
 (* ------------------------------------------------------------------------- *)
+(* ------------------------------------------------------------------------- *)
+(* the entry points' own preconditions: when they hold, the model succeeds    *)
+(* ------------------------------------------------------------------------- *)
+Lemma within_spec c s p :
+  within c s p = true ->
+  validate_signers_and_policies c s p = Ok tt /\ nodup_s s = true /\ nodup_p p = true.
+Proof.
+  unfold within. rewrite !andb_true_iff. intros [[[[H1 H2] H3] H4] H5]. split; [|split; assumption].
+  unfold validate_signers_and_policies. rewrite H1, H2, H3. reflexivity.
+Qed.
+
+Lemma fp_free_has c a r' : wf2 c a -> fp_free (a_rules a) r' = true -> has_fp (a_fps a) (fp_of r') = false.
+Proof.
+  intros W2 H. unfold fp_free in H. apply negb_true_iff in H.
+  destruct (has_fp (a_fps a) (fp_of r')) eqn:E; [|reflexivity]. exfalso.
+  unfold has_fp in E. apply existsb_exists in E. destruct E as [g [Hg Eg]].
+  destruct (w2_fps_from c a W2 g Hg) as [x [Hx Ex]].
+  assert (existsb (same_fp r') (a_rules a) = true); [|congruence].
+  apply existsb_exists. exists x. split; [exact Hx|]. exact (fp_eqb_trans _ _ _ Eg Ex).
+Qed.
+
+Lemma vsf_ok fps t s p :
+  nodup_s s = true -> nodup_p p = true -> has_fp fps (t, s, p) = false ->
+  validate_and_set_fingerprint fps t s p = Ok ((t, s, p) :: fps).
+Proof.
+  intros H1 H2 H3. unfold validate_and_set_fingerprint, compute_fingerprint. rewrite H1, H2. cbn [guard bind].
+  unfold has_fp in H3. rewrite H3. reflexivity.
+Qed.
+Lemma rmf_ok fps t s p :
+  nodup_s s = true -> nodup_p p = true -> exists fps', remove_fingerprint fps t s p = Ok fps'.
+Proof.
+  intros H1 H2. unfold remove_fingerprint, compute_fingerprint. rewrite H1, H2. cbn [guard bind]. eauto.
+Qed.
+
+Lemma install_all_total O ps r :
+  forallb (fun pn => o_install O (fst pn) (snd pn) r) ps = true -> exists l, install_all O ps r = Ok l.
+Proof.
+  induction ps as [|[p n] rest IH]; intros H; [exists []; reflexivity|]. cbn [forallb fst snd] in H.
+  apply andb_prop in H. destruct H as [H1 H2]. destruct (IH H2) as [l Hl]. cbn [install_all]. rewrite H1, Hl. cbn. eauto.
+Qed.
+
+Lemma old_rule_nodup c a r : wf2 c a -> In r (a_rules a) -> nodup_s (r_signers r) = true /\ nodup_p (r_policies r) = true.
+Proof.
+  intros W2 Hr. destruct (w2_rules c a W2 r Hr) as [H1 [H2 _]]. split; [apply nodup_s_NoDup|apply nodup_p_NoDup]; assumption.
+Qed.
+
+Lemma remove_first_in {A} (eqb : A -> A -> bool) (Hr : forall x, eqb x x = true) x l :
+  In x l -> remove_first eqb x l = None -> False.
+Proof.
+  induction l as [|y l IH]; intros Hi H; [destruct Hi|]. cbn [remove_first] in H.
+  destruct (eqb x y) eqn:E; [discriminate|].
+  destruct Hi as [->|Hi]; [rewrite Hr in E; discriminate|].
+  destruct (remove_first eqb x l); [discriminate|]. auto.
+Qed.
+Lemma remove_last_in {A} (eqb : A -> A -> bool) (Hr : forall x, eqb x x = true) x l :
+  In x l -> remove_last eqb x l = None -> False.
+Proof.
+  intros Hi H. unfold remove_last in H. destruct (remove_first eqb x (rev l)) eqn:E; [discriminate|].
+  apply (remove_first_in eqb Hr x (rev l)); [apply in_rev; rewrite rev_involutive; exact Hi|exact E].
+Qed.
+
+Theorem op_ok_model M c a now op maxid :
+  wf a -> wf2 c a -> maxid + 1 = a_next a ->
+  op_ok c (a_rules a) M now maxid op = true ->
+  exists res, run_op (oracles_of M) c a now op = Ok res.
+Proof.
+  intros W W2 Hm H. destruct op; cbn [op_ok] in H; cbn [run_op].
+  - (* AddRule *)
+    rewrite !andb_true_iff in H. destruct H as [[[[[[H1 H2] H3] H4] H5] H6] H7].
+    destruct (within_spec _ _ _ H3) as [V [Ns Np]].
+    unfold add_context_rule. rewrite (w2_count c a W2), H1, Ns, H2. cbn [guard bind]. rewrite V. cbn [bind].
+    rewrite (vsf_ok _ _ _ _ Ns Np (fp_free_has c a _ W2 H4 : has_fp (a_fps a) (t, signers, map fst policies) = false)). cbn [bind].
+    rewrite <- Hm. destruct (install_all_total (oracles_of M) policies _ H5) as [l ->]. cbn [bind].
+    replace (maxid + 1 + 1) with (maxid + 2) by lia. rewrite H6, H7. cbn. eauto.
+  - (* UpdName *)
+    change (find_id id (a_rules a)) with (get_rule a id) in H. unfold update_context_rule_name, get_context_rule.
+    destruct (get_rule a id); [cbn; eauto|discriminate].
+  - (* UpdValid *)
+    change (find_id id (a_rules a)) with (get_rule a id) in H. unfold update_context_rule_valid_until, get_context_rule.
+    destruct (get_rule a id); [|discriminate]. cbn [of_option bind]. rewrite H. cbn. eauto.
+  - (* RemoveRule *)
+    change (find_id id (a_rules a)) with (get_rule a id) in H. unfold remove_context_rule, get_context_rule.
+    destruct (get_rule a id) as [r|] eqn:G; [|discriminate]. cbn [of_option bind].
+    destruct (get_rule_some _ _ _ G) as [Hr _]. destruct (old_rule_nodup c a r W2 Hr) as [N1 N2].
+    destruct (rmf_ok (a_fps a) (r_type r) _ _ N1 N2) as [fps' ->]. cbn [bind].
+    destruct (a_count a) as [cnt|] eqn:Ec.
+    + cbn [of_option bind]. pose proof (w2_count c a W2) as Hc. unfold count_of in Hc. rewrite Ec in Hc.
+      rewrite Hc, H. cbn. eauto.
+    + exfalso. rewrite (w2_count_set c a W2 Ec) in Hr. destruct Hr.
+  - (* AddSigner *)
+    change (find_id id (a_rules a)) with (get_rule a id) in H. unfold add_signer, get_context_rule.
+    destruct (get_rule a id) as [r|] eqn:G; [|discriminate]. cbn [of_option bind].
+    rewrite !andb_true_iff in H. destruct H as [[H1 H2] H3]. rewrite H1. cbn [guard bind].
+    destruct (within_spec _ _ _ H2) as [V [Ns Np]]. rewrite V. cbn [bind].
+    rewrite (vsf_ok _ _ _ _ Ns Np (fp_free_has c a _ W2 H3 : has_fp _ (r_type r, r_signers r ++ [s], r_policies r) = false)). cbn [bind].
+    destruct (get_rule_some _ _ _ G) as [Hr _]. destruct (old_rule_nodup c a r W2 Hr) as [N1 N2].
+    match goal with |- context [remove_fingerprint ?f ?t0 ?s0 ?q0] => destruct (rmf_ok f t0 s0 q0 N1 N2) as [fps' ->] end. cbn. eauto.
+  - (* RemoveSigner *)
+    change (find_id id (a_rules a)) with (get_rule a id) in H. unfold remove_signer, get_context_rule.
+    destruct (get_rule a id) as [r|] eqn:G; [|discriminate]. cbn [of_option bind].
+    rewrite !andb_true_iff in H. destruct H as [[H1 H2] H3].
+    destruct (get_rule_some _ _ _ G) as [Hr _]. destruct (old_rule_nodup c a r W2 Hr) as [N1 N2].
+    destruct (w2_rules c a W2 r Hr) as [Hnd _].
+    destruct (remove_last signer_eqb s (r_signers r)) as [ss|] eqn:Er.
+    2:{ exfalso. apply mem_s_In in H1. exact (remove_last_in signer_eqb signer_eqb_refl s _ H1 Er). }
+    destruct (remove_last_filter signer_eqb s _ _ signer_eqb_eq Hnd Er) as [-> _]. cbn [of_option bind].
+    destruct (within_spec _ _ _ H2) as [V [Ns Np]]. rewrite V. cbn [bind].
+    rewrite (vsf_ok _ _ _ _ Ns Np (fp_free_has c a _ W2 H3 : has_fp _ (r_type r, filter (fun x => negb (signer_eqb s x)) (r_signers r), r_policies r) = false)). cbn [bind].
+    match goal with |- context [remove_fingerprint ?f ?t0 ?s0 ?q0] => destruct (rmf_ok f t0 s0 q0 N1 N2) as [fps' ->] end. cbn. eauto.
+  - (* AddPolicy *)
+    change (find_id id (a_rules a)) with (get_rule a id) in H. unfold add_policy, get_context_rule.
+    destruct (get_rule a id) as [r|] eqn:G; [|discriminate]. cbn [of_option bind].
+    rewrite !andb_true_iff in H. destruct H as [[[H1 H0] H2] H3]. rewrite H1. cbn [guard bind].
+    change (o_install (oracles_of M) p param r) with (install_answer M p param r). rewrite H0. cbn [guard bind].
+    destruct (within_spec _ _ _ H2) as [V [Ns Np]]. rewrite V. cbn [bind].
+    rewrite (vsf_ok _ _ _ _ Ns Np (fp_free_has c a _ W2 H3 : has_fp _ (r_type r, r_signers r, r_policies r ++ [p]) = false)). cbn [bind].
+    destruct (get_rule_some _ _ _ G) as [Hr _]. destruct (old_rule_nodup c a r W2 Hr) as [N1 N2].
+    match goal with |- context [remove_fingerprint ?f ?t0 ?s0 ?q0] => destruct (rmf_ok f t0 s0 q0 N1 N2) as [fps' ->] end. cbn. eauto.
+  - (* RemovePolicy *)
+    change (find_id id (a_rules a)) with (get_rule a id) in H. unfold remove_policy, get_context_rule.
+    destruct (get_rule a id) as [r|] eqn:G; [|discriminate]. cbn [of_option bind].
+    rewrite !andb_true_iff in H. destruct H as [[H1 H2] H3].
+    destruct (get_rule_some _ _ _ G) as [Hr _]. destruct (old_rule_nodup c a r W2 Hr) as [N1 N2].
+    destruct (w2_rules c a W2 r Hr) as [_ [Hnd _]].
+    destruct (remove_last N.eqb p (r_policies r)) as [ps|] eqn:Er.
+    2:{ exfalso. apply mem_p_In in H1. exact (remove_last_in N.eqb N.eqb_refl p _ H1 Er). }
+    destruct (remove_last_filter N.eqb p _ _ N.eqb_eq Hnd Er) as [-> _]. cbn [of_option bind].
+    destruct (within_spec _ _ _ H2) as [V [Ns Np]]. rewrite V. cbn [bind].
+    rewrite (vsf_ok _ _ _ _ Ns Np (fp_free_has c a _ W2 H3 : has_fp _ (r_type r, r_signers r, filter (fun x => negb (N.eqb p x)) (r_policies r)) = false)). cbn [bind].
+    match goal with |- context [remove_fingerprint ?f ?t0 ?s0 ?q0] => destruct (rmf_ok f t0 s0 q0 N1 N2) as [fps' ->] end. cbn. eauto.
+Qed.
+
+(* ------------------------------------------------------------------------- *)
+(* the monitor accepts every run of the model                                 *)
+(* ------------------------------------------------------------------------- *)
+(* the types the observation lists ids for cover every type a rule is created with *)
+Definition mem_t (t : ctype) (types : list ctype) : bool := existsb (ctype_eqb t) types.
+Definition call_covered (types : list ctype) (cl : call) : bool :=
+  match cl with
+  | Construct _ _ => mem_t TDefault types
+  | Admin _ _ (AddRule t _ _ _ _) => mem_t t types
+  | _ => true
+  end.
+Definition covers (types : list ctype) (cs : list call) : bool :=
+  negb (isnil types) && forallb (call_covered types) cs.
+
 Definition sim2 (c : cfg) (types : list ctype) (m : mstate) (st : state) : Prop :=
   sim m st /\
+  (ob_ids (ms_prev m) = [] \/ ms_prev m = observe types st) /\
   (ms_deployed m = true -> ms_prev m = observe types st) /\
-  ms_maxid m < a_next (s_acct st) /\
+  ms_maxid m + 1 = a_next (s_acct st) /\
   (s_deployed st = false -> s_acct st = acct0) /\
-  wf2 c (s_acct st).
+  wf2 c (s_acct st) /\
+  (forall r, In r (a_rules (s_acct st)) -> mem_t (r_type r) types = true).
 
 Lemma sim2_init c types : sim2 c types mstate0 init.
 Proof.
-  split; [apply sim_init|]. split; [discriminate|]. split; [cbn; lia|]. split; [reflexivity|apply wf2_acct0].
+  split; [apply sim_init|]. split; [left; reflexivity|]. split; [discriminate|]. split; [reflexivity|].
+  split; [reflexivity|]. split; [apply wf2_acct0|intros r []].
 Qed.
 
-Lemma step_next_mono c st cl : a_next (s_acct st) <= a_next (s_acct (fst (step c st cl))).
+Lemma fold_max_eq l : forall m B, m <= B -> (forall x, In x l -> x <= B) -> (m = B \/ In B l) -> fold_left Z.max l m = B.
 Proof.
-  destruct cl; cbn [step].
-  - destruct (s_deployed st); [cbn; lia|].
-    destruct (add_context_rule _ c (s_acct st) (s_now st) TDefault 0%N None signers policies) as [[[a1 r1] l1]|] eqn:E; cbn [fst s_acct]; [|lia].
-    unfold add_context_rule in E. inv_bind E. inversion E; subst. cbn [a_next]. lia.
-  - destruct ((0 <=? n) && in_u32 (s_now st + n)); cbn; lia.
-  - cbn. lia.
-  - destruct (negb (s_deployed st)); [cbn; lia|].
-    destruct (do_check_auth _ (s_acct st) (s_now st) auths sigs [CCall self (fn_of op)]) as [l1|]; cbn [bind]; [|cbn; lia].
-    destruct (run_op _ c (s_acct st) (s_now st) op) as [[[a1 ret] l2]|] eqn:E; cbn [bind fst s_acct]; [|lia].
-    eapply run_op_next; eauto.
-  - destruct (negb (s_deployed st)); [cbn; lia|]. destruct (do_check_auth _ _ _ _ _ _); cbn; lia.
-  - destruct (negb (s_deployed st)); [cbn; lia|]. destruct (do_check_auth _ _ _ _ _ _); cbn; lia.
-  - destruct (negb (s_deployed st)); [cbn; lia|]. destruct (do_check_auth _ _ _ _ _ _); [|cbn; lia].
-    destruct ((1 <=? t) && (t <=? nsig)); cbn; lia.
+  induction l as [|y l IH]; intros m B Hm Hl Hb; cbn [fold_left].
+  - destruct Hb as [->|[]]. reflexivity.
+  - apply IH.
+    + specialize (Hl y (or_introl eq_refl)). lia.
+    + intros x Hx. apply Hl. right. exact Hx.
+    + destruct Hb as [->|[->|Hb]]; [left; specialize (Hl y (or_introl eq_refl)); lia|left; lia|right; exact Hb].
+Qed.
+
+(* the next id moves only when a rule is created, and then that rule carries the old next id *)
+Lemma run_op_next_cases O c a now op a' ret l : run_op O c a now op = Ok (a', ret, l) ->
+  a_next a' = a_next a \/ (a_next a' = a_next a + 1 /\ exists r, In r (a_rules a') /\ r_id r = a_next a).
+Proof.
+  intros H. destruct op; cbn [run_op] in H.
+  - destruct (add_context_rule O c a now t name valid signers policies) as [[[a1 r1] l1]|] eqn:E; [|discriminate].
+    cbn in H. inversion H; subst. unfold add_context_rule in E. inv_bind E. inversion E; subst. cbn [a_next a_rules]. right.
+    split; [reflexivity|]. eexists. split; [apply in_or_app; right; left; reflexivity|reflexivity].
+  - destruct (update_context_rule_name a id name) as [[[a1 r1] l1]|] eqn:E; [|discriminate].
+    cbn in H. inversion H; subst. unfold update_context_rule_name in E. inv_bind E. inversion E; subst. left. reflexivity.
+  - destruct (update_context_rule_valid_until a now id valid) as [[[a1 r1] l1]|] eqn:E; [|discriminate].
+    cbn in H. inversion H; subst. unfold update_context_rule_valid_until in E. inv_bind E. inversion E; subst. left. reflexivity.
+  - destruct (remove_context_rule O a id) as [[a1 l1]|] eqn:E; [|discriminate].
+    cbn in H. inversion H; subst. unfold remove_context_rule in E. inv_bind E. inversion E; subst. left. reflexivity.
+  - destruct (add_signer c a id s) as [[a1 l1]|] eqn:E; [|discriminate].
+    cbn in H. inversion H; subst. unfold add_signer in E. inv_bind E. inversion E; subst. left. reflexivity.
+  - destruct (remove_signer c a id s) as [[a1 l1]|] eqn:E; [|discriminate].
+    cbn in H. inversion H; subst. unfold remove_signer in E. inv_bind E. inversion E; subst. left. reflexivity.
+  - destruct (add_policy O c a id p param) as [[a1 l1]|] eqn:E; [|discriminate].
+    cbn in H. inversion H; subst. unfold add_policy in E. inv_bind E. inversion E; subst. left. reflexivity.
+  - destruct (remove_policy O c a id p) as [[a1 l1]|] eqn:E; [|discriminate].
+    cbn in H. inversion H; subst. unfold remove_policy in E. inv_bind E. inversion E; subst. left. reflexivity.
+Qed.
+
+Lemma maxid_step a a' m : wf a' -> m + 1 = a_next a ->
+  (a_next a' = a_next a \/ (a_next a' = a_next a + 1 /\ exists r, In r (a_rules a') /\ r_id r = a_next a)) ->
+  fold_left Z.max (map r_id (a_rules a')) m + 1 = a_next a'.
+Proof.
+  intros W Hm Hc. assert (Hall : forall x, In x (map r_id (a_rules a')) -> x <= a_next a' - 1).
+  { intros x Hx. apply in_map_iff in Hx. destruct Hx as [r [<- Hr]]. pose proof (wf_next a' W r Hr). lia. }
+  rewrite (fold_max_eq _ m (a_next a' - 1)); [lia| |exact Hall|].
+  - destruct Hc as [E|[E _]]; lia.
+  - destruct Hc as [E|[E [r [Hr Hid]]]]; [left; lia|right]. apply in_map_iff. exists r. split; [lia|exact Hr].
+Qed.
+
+(* types of the rules a successful edit leaves behind *)
+Lemma upd_In id f T x : In x (upd id f T) -> exists y, In y T /\ (x = y \/ x = f y).
+Proof.
+  unfold upd. intros H. apply in_map_iff in H. destruct H as [y [E Hy]]. exists y. split; [exact Hy|].
+  destruct (r_id y =? id); auto.
+Qed.
+
+Lemma expected_table_types (P : ctype -> Prop) maxid T op ret T' :
+  expected_table maxid T op ret = Some T' ->
+  (forall r, In r T -> P (r_type r)) ->
+  match op with AddRule t _ _ _ _ => P t | _ => True end ->
+  forall r, In r T' -> P (r_type r).
+Proof.
+  intros H HT Hop. destruct op; cbn [expected_table] in H.
+  - destruct ret as [r0|]; [|discriminate].
+    destruct ((maxid <? r_id r0) && rule_eqb r0 _) eqn:E; [|discriminate]. inversion H; subst.
+    apply andb_prop in E. destruct E as [_ E]. apply rule_eqb_eq in E.
+    intros r Hr. apply in_app_or in Hr. destruct Hr as [Hr|[<-|[]]]; [auto|]. rewrite E. exact Hop.
+  - destruct (find_id id T) as [r0|]; [|discriminate]. destruct (option_eqb rule_eqb ret _); [|discriminate]. inversion H; subst.
+    intros r Hr. destruct (upd_In _ _ _ _ Hr) as [y [Hy [->| ->]]]; [auto|apply (HT y Hy)].
+  - destruct (find_id id T) as [r0|]; [|discriminate]. destruct (option_eqb rule_eqb ret _); [|discriminate]. inversion H; subst.
+    intros r Hr. destruct (upd_In _ _ _ _ Hr) as [y [Hy [->| ->]]]; [auto|apply (HT y Hy)].
+  - destruct (find_id id T) as [r0|]; [|discriminate]. inversion H; subst. intros r Hr. apply filter_In in Hr. apply HT. tauto.
+  - destruct (find_id id T) as [r0|]; [|discriminate]. destruct (mem_s s (r_signers r0)); [discriminate|]. inversion H; subst.
+    intros r Hr. destruct (upd_In _ _ _ _ Hr) as [y [Hy [->| ->]]]; [auto|apply (HT y Hy)].
+  - destruct (find_id id T) as [r0|]; [|discriminate]. destruct (mem_s s (r_signers r0)); [|discriminate]. inversion H; subst.
+    intros r Hr. destruct (upd_In _ _ _ _ Hr) as [y [Hy [->| ->]]]; [auto|apply (HT y Hy)].
+  - destruct (find_id id T) as [r0|]; [|discriminate]. destruct (mem_p p (r_policies r0)); [discriminate|]. inversion H; subst.
+    intros r Hr. destruct (upd_In _ _ _ _ Hr) as [y [Hy [->| ->]]]; [auto|apply (HT y Hy)].
+  - destruct (find_id id T) as [r0|]; [|discriminate]. destruct (mem_p p (r_policies r0)); [|discriminate]. inversion H; subst.
+    intros r Hr. destruct (upd_In _ _ _ _ Hr) as [y [Hy [->| ->]]]; [auto|apply (HT y Hy)].
+Qed.
+
+Lemma observe_acct0 types st : s_acct st = acct0 -> empty_obs (observe types st) = true.
+Proof.
+  intros E. unfold empty_obs, observe. rewrite E. cbn [ob_count ob_rules ob_ids count_of a_count a_rules acct0 isnil].
+  rewrite Z.eqb_refl. cbn [andb]. apply forallb_forall. intros tl Htl. apply in_map_iff in Htl. destruct Htl as [t [<- _]].
+  reflexivity.
+Qed.
+
+Lemma list_eqb_ctype_refl l : list_eqb ctype_eqb l l = true.
+Proof. apply (list_eqb_eq ctype_eqb ctype_eqb_eq). reflexivity. Qed.
+
+Lemma shape_model types m st st' :
+  types <> [] ->
+  (ob_ids (ms_prev m) = [] \/ ms_prev m = observe types st) ->
+  (forall r, In r (a_rules (s_acct st')) -> mem_t (r_type r) types = true) ->
+  shape_ok (ms_prev m) (observe types st') = true.
+Proof.
+  intros Hne Hp Hc. unfold shape_ok. rewrite !andb_true_iff. split; [split|].
+  - unfold observe. cbn [ob_ids]. destruct types; [contradiction|reflexivity].
+  - destruct Hp as [-> | ->]; [reflexivity|]. rewrite !observe_types, list_eqb_ctype_refl. apply orb_true_r.
+  - apply forallb_forall. intros r Hr. cbn [observe ob_rules] in Hr. specialize (Hc r Hr).
+    unfold mem_t in Hc. apply existsb_exists in Hc. destruct Hc as [t [Ht Et]].
+    apply existsb_exists. exists (t, match get_context_rules (s_acct st') t with Ok l => Some (map r_id l) | Fail => None end).
+    split; [unfold observe; cbn [ob_ids]; apply in_map_iff; exists t; auto|]. cbn [fst]. rewrite ctype_eqb_sym. exact Et.
 Qed.
 
 Lemma step_undeployed_acct c st cl :
@@ -295,75 +529,167 @@ Lemma mon_next_fields m cl out ob :
   ms_maxid (mon_next m (cl, out, ob)) = fold_left Z.max (map r_id (ob_rules ob)) (ms_maxid m).
 Proof. split; reflexivity. Qed.
 
-Lemma table_step_model c types m st cl :
-  sim2 c types m st -> swf st ->
-  table_step c m (cl, snd (step c st cl), observe types (fst (step c st cl))) = true.
-Proof.
-  intros [[Sm [Sd [Sr Sn]]] [Sp [Sx [Sa W2]]]] [W N].
-  pose proof (swf_step c st cl (conj W N)) as [W' N'].
-  pose proof (wf2_step c st cl W W2) as W2'.
-  pose proof (table_ok_model c types _ W' W2') as Tok.
-  unfold table_step. rewrite Sd.
-  destruct (s_deployed st) eqn:D; cbn [negb].
-  - (* deployed *)
-    rewrite Tok. cbn [andb]. rewrite (Sp (eq_trans Sd eq_refl)). clear Tok.
-    destruct cl; cbn [step]; rewrite ?D; cbn [negb].
-    + (* Construct on a deployed account: refused *)
-      cbn [fst snd]. rewrite same_table_acct by reflexivity. cbn [observe ob_now]. rewrite Z.eqb_refl. reflexivity.
-    + destruct ((0 <=? n) && in_u32 (s_now st + n)); cbn [fst snd].
-      * rewrite same_table_acct by reflexivity. cbn [observe ob_now s_now]. rewrite Z.eqb_refl. reflexivity.
-      * rewrite same_table_acct by reflexivity. cbn [observe ob_now]. rewrite Z.eqb_refl. reflexivity.
-    + cbn [fst snd]. rewrite same_table_acct by reflexivity. cbn [observe ob_now s_now]. rewrite Z.eqb_refl. reflexivity.
-    + destruct (do_check_auth _ (s_acct st) (s_now st) auths sigs [CCall self (fn_of op)]) as [l1|]; cbn [bind].
-      2:{ cbn [fst snd]. rewrite same_table_acct by reflexivity. cbn [observe ob_now]. rewrite Z.eqb_refl. reflexivity. }
-      destruct (run_op _ c (s_acct st) (s_now st) op) as [[[a1 ret] l2]|] eqn:E; cbn [bind fst snd].
-      2:{ rewrite same_table_acct by reflexivity. cbn [observe ob_now]. rewrite Z.eqb_refl. reflexivity. }
-      cbn [observe ob_rules ob_now s_acct s_now].
-      rewrite (expected_table_model _ c (s_acct st) (s_now st) op a1 ret l2 (ms_maxid m) W W2 Sx E).
-      rewrite Z.eqb_refl, andb_true_r. apply (list_eqb_eq rule_eqb rule_eqb_eq). reflexivity.
-    + destruct (do_check_auth _ _ _ _ _ _); cbn [fst snd]; rewrite same_table_acct by reflexivity;
-        cbn [observe ob_now]; rewrite Z.eqb_refl; reflexivity.
-    + destruct (do_check_auth _ _ _ _ _ _); cbn [fst snd]; rewrite same_table_acct by reflexivity;
-        cbn [observe ob_now]; rewrite Z.eqb_refl; reflexivity.
-    + destruct (do_check_auth _ _ _ _ _ _); [destruct ((1 <=? t) && (t <=? nsig))|]; cbn [fst snd];
-        rewrite same_table_acct by reflexivity; cbn [observe ob_now]; rewrite Z.eqb_refl; reflexivity.
-  - (* not yet deployed *)
-    destruct cl; cbn [step]; rewrite ?D; cbn [negb fst snd]; try reflexivity.
-    + revert Tok W' W2'. cbn [step]. rewrite D.
-      destruct (add_context_rule _ c (s_acct st) (s_now st) TDefault 0%N None signers policies) as [[[a1 r1] l1]|] eqn:E;
-        cbn [fst snd]; [|reflexivity].
-      intros Tok _ _. rewrite Tok. cbn [andb observe ob_rules s_acct].
-      rewrite (Sa eq_refl) in E. unfold add_context_rule in E. inv_bind E. inversion E; subst; clear E.
-      cbn [a_rules acct0 app r_id a_next]. rewrite (Sa eq_refl) in Sx. cbn [a_next acct0] in Sx.
-      rewrite (proj2 (Z.ltb_lt _ _) Sx), rule_eqb_refl'. reflexivity.
-Qed.
+Section Step.
+  Variable c : cfg.
+  Variable types : list ctype.
+  Hypothesis Hne : types <> [].
 
-Lemma sim2_step c types m st cl :
-  sim2 c types m st -> swf st ->
-  sim2 c types (mon_next m (cl, snd (step c st cl), observe types (fst (step c st cl)))) (fst (step c st cl)).
-Proof.
-  intros S [W N]. pose proof S as [S0 [Sp [Sx [Sa W2]]]].
-  destruct (auth_step_model c types m st cl S0 (conj W N)) as [_ S0'].
-  pose proof (swf_step c st cl (conj W N)) as [W' N'].
-  split; [exact S0'|]. split; [intros _; reflexivity|]. split; [|split].
-  - destruct (mon_next_fields m cl (snd (step c st cl)) (observe types (fst (step c st cl)))) as [_ ->].
-    cbn [observe ob_rules]. apply maxid_next; [exact W'|]. pose proof (step_next_mono c st cl). lia.
-  - apply step_undeployed_acct. exact Sa.
-  - apply wf2_step; assumption.
-Qed.
+  Lemma mon_step_model m st cl :
+    sim2 c types m st -> swf st -> call_covered types cl = true ->
+    mon_step c m (cl, snd (step c st cl), observe types (fst (step c st cl))) = true /\
+    sim2 c types (mon_next m (cl, snd (step c st cl), observe types (fst (step c st cl)))) (fst (step c st cl)).
+  Proof.
+    intros [[Sm [Sd [Sr Sn]]] [Sp0 [Sp [Sx [Sa [W2 Sc]]]]]] [W N] Hcov.
+    pose proof (swf_step c st cl (conj W N)) as [W' N'].
+    pose proof (wf2_step c st cl W W2) as W2'.
+    (* the new state keeps the cover invariant and the id counter relation *)
+    assert (Key : (forall r, In r (a_rules (s_acct (fst (step c st cl)))) -> mem_t (r_type r) types = true) /\
+                  (a_next (s_acct (fst (step c st cl))) = a_next (s_acct st) \/
+                   (a_next (s_acct (fst (step c st cl))) = a_next (s_acct st) + 1 /\
+                    exists r, In r (a_rules (s_acct (fst (step c st cl)))) /\ r_id r = a_next (s_acct st)))).
+    { destruct cl; cbn [step].
+      - destruct (s_deployed st) eqn:D; [split; [exact Sc|left; reflexivity]|].
+        destruct (add_context_rule _ c (s_acct st) (s_now st) TDefault 0%N None signers policies) as [[[a1 r1] l1]|] eqn:E;
+          cbn [fst s_acct]; [|split; [exact Sc|left; reflexivity]].
+        unfold add_context_rule in E. inv_bind E. inversion E; subst; clear E. cbn [a_rules a_next]. split.
+        + intros r Hr. apply in_app_or in Hr. destruct Hr as [Hr|[<-|[]]]; [auto|exact Hcov].
+        + right. split; [reflexivity|]. eexists. split; [apply in_or_app; right; left; reflexivity|reflexivity].
+      - destruct ((0 <=? n) && in_u32 (s_now st + n)); split; solve [exact Sc|left; reflexivity].
+      - split; [exact Sc|left; reflexivity].
+      - destruct (negb (s_deployed st)); [split; [exact Sc|left; reflexivity]|].
+        destruct (do_check_auth _ (s_acct st) (s_now st) auths sigs [CCall self (fn_of op)]) as [l1|]; cbn [bind];
+          [|split; [exact Sc|left; reflexivity]].
+        destruct (run_op _ c (s_acct st) (s_now st) op) as [[[a1 ret] l2]|] eqn:E; cbn [bind fst s_acct];
+          [|split; [exact Sc|left; reflexivity]].
+        split; [|eapply run_op_next_cases; eauto].
+        assert (Hlt : a_next (s_acct st) - 1 < a_next (s_acct st)) by lia.
+        pose proof (expected_table_model _ c (s_acct st) (s_now st) op a1 ret l2 _ W W2 Hlt E) as Het.
+        apply (expected_table_types (fun t => mem_t t types = true) _ _ _ _ _ Het Sc).
+        destruct op; try exact I. exact Hcov.
+      - destruct (negb (s_deployed st)); [split; [exact Sc|left; reflexivity]|].
+        destruct (do_check_auth _ _ _ _ _ _); split; solve [exact Sc|left; reflexivity].
+      - destruct (negb (s_deployed st)); [split; [exact Sc|left; reflexivity]|].
+        destruct (do_check_auth _ _ _ _ _ _); split; solve [exact Sc|left; reflexivity].
+      - destruct (negb (s_deployed st)); [split; [exact Sc|left; reflexivity]|].
+        destruct (do_check_auth _ _ _ _ _ _); [|split; [exact Sc|left; reflexivity]].
+        destruct ((1 <=? t) && (t <=? nsig)); split; solve [exact Sc|left; reflexivity]. }
+    destruct Key as [Sc' Hnext].
+    pose proof (shape_model types m st _ Hne Sp0 Sc') as Hshape.
+    pose proof (table_ok_model c types _ W' W2') as Tok.
+    (* --- the new simulation --- *)
+    assert (Hsim : sim2 c types (mon_next m (cl, snd (step c st cl), observe types (fst (step c st cl)))) (fst (step c st cl))).
+    { split; [|split; [right; reflexivity|split; [intros _; reflexivity|split; [|split; [|split; [exact W2'|exact Sc']]]]]].
+      - (* modes / deployed / rules / now *)
+        unfold sim, mon_next. cbn [ms_modes ms_deployed ms_prev]. rewrite Sm, Sd.
+        destruct cl; cbn [step].
+        + destruct (s_deployed st) eqn:D; [repeat split; auto|].
+          destruct (add_context_rule _ c (s_acct st) (s_now st) TDefault 0%N None signers policies) as [[[a1 r1] l1]|];
+            cbn [fst snd]; repeat split; auto.
+        + destruct ((0 <=? n) && in_u32 (s_now st + n)); cbn [fst snd]; repeat split; auto.
+        + cbn [fst snd]. repeat split; auto.
+        + destruct (s_deployed st) eqn:D; cbn [negb fst snd]; [|repeat split; auto].
+          destruct (do_check_auth _ (s_acct st) (s_now st) auths sigs [CCall self (fn_of op)]) as [l1|]; cbn [bind];
+            [|cbn [fst snd]; repeat split; auto].
+          destruct (run_op _ c (s_acct st) (s_now st) op) as [[[a1 ret] l2]|]; cbn [bind fst snd]; repeat split; auto.
+        + destruct (s_deployed st) eqn:D; cbn [negb fst snd]; [|repeat split; auto].
+          destruct (do_check_auth _ _ _ _ _ _); cbn [fst snd]; repeat split; auto.
+        + destruct (s_deployed st) eqn:D; cbn [negb fst snd]; [|repeat split; auto].
+          destruct (do_check_auth _ _ _ _ _ _); cbn [fst snd]; repeat split; auto.
+        + destruct (s_deployed st) eqn:D; cbn [negb fst snd]; [|repeat split; auto].
+          destruct (do_check_auth _ _ _ _ _ _); [|cbn [fst snd]; repeat split; auto].
+          destruct ((1 <=? t) && (t <=? nsig)); cbn [fst snd]; repeat split; auto.
+      - destruct (mon_next_fields m cl (snd (step c st cl)) (observe types (fst (step c st cl)))) as [_ ->].
+        cbn [observe ob_rules]. apply (maxid_step (s_acct st)); assumption.
+      - apply step_undeployed_acct. exact Sa. }
+    split; [|exact Hsim].
+    (* --- the step is accepted --- *)
+    unfold mon_step, auth_step, table_step. rewrite Hshape, Sd, Sr, Sn, Sm. cbn [andb].
+    destruct (s_deployed st) eqn:D; cbn [negb].
+    - (* deployed *)
+      rewrite Tok. cbn [andb]. rewrite (Sp (eq_trans Sd eq_refl)).
+      destruct cl; cbn [step]; rewrite ?D; cbn [negb].
+      + cbn [fst snd]. rewrite same_table_acct by reflexivity. cbn [observe ob_now]. rewrite Z.add_0_r, Z.eqb_refl. reflexivity.
+      + destruct ((0 <=? n) && in_u32 (s_now st + n)); cbn [fst snd]; rewrite same_table_acct by reflexivity;
+          cbn [observe ob_now s_now]; rewrite ?Z.add_0_r, Z.eqb_refl; reflexivity.
+      + cbn [fst snd]. rewrite same_table_acct by reflexivity. cbn [observe ob_now s_now]. rewrite Z.add_0_r, Z.eqb_refl. reflexivity.
+      + (* Admin *)
+        pose proof (expectation_correct (s_acct st) (s_modes st) (s_now st) auths sigs [CCall self (fn_of op)] W) as He.
+        destruct (do_check_auth _ (s_acct st) (s_now st) auths sigs [CCall self (fn_of op)]) as [l1|] eqn:E1; cbn [bind].
+        2:{ cbn [fst snd agrees_entry]. rewrite same_table_acct by reflexivity. cbn [observe ob_now]. rewrite Z.add_0_r, Z.eqb_refl.
+            destruct (expectation _ _ _ _ _ _) as [| |enf]; try reflexivity. destruct He as [l [He _]]. discriminate. }
+        destruct (run_op _ c (s_acct st) (s_now st) op) as [[[a1 ret] l2]|] eqn:E2; cbn [bind fst snd].
+        2:{ cbn [agrees_entry]. rewrite same_table_acct by reflexivity. cbn [observe ob_now]. rewrite Z.add_0_r, Z.eqb_refl.
+            destruct (expectation _ _ _ _ _ _) as [| |enf]; try reflexivity.
+            destruct (op_ok c (a_rules (s_acct st)) (s_modes st) (s_now st) (ms_maxid m) op) eqn:Eo; [|reflexivity].
+            exfalso. destruct (op_ok_model (s_modes st) c (s_acct st) (s_now st) op (ms_maxid m) W W2 Sx Eo) as [res Hres].
+            rewrite Hres in E2. discriminate. }
+        cbn [observe ob_rules ob_now s_acct s_now agrees_entry].
+        assert (Hlt : ms_maxid m < a_next (s_acct st)) by lia.
+        rewrite (expected_table_model _ c (s_acct st) (s_now st) op a1 ret l2 (ms_maxid m) W W2 Hlt E2).
+        rewrite Z.add_0_r, Z.eqb_refl, (proj2 (list_eqb_eq rule_eqb rule_eqb_eq _ _) eq_refl). cbn [andb]. rewrite andb_true_r.
+        destruct (expectation (a_rules (s_acct st)) (s_modes st) (s_now st) auths sigs [CCall self (fn_of op)]) as [| |enf];
+          cbn [agrees]; [discriminate|discriminate|].
+        destruct He as [l [He Hl]]. inversion He; subst l.
+        rewrite filter_app. rewrite (run_op_no_enf _ _ _ _ _ _ _ _ E2 : filter is_enforce l2 = []), app_nil_r, <- Hl.
+        apply same_enforce_filter_refl.
+      + pose proof (agrees_expectation (s_acct st) (s_modes st) (s_now st) auths sigs cs W) as Ha.
+        destruct (do_check_auth _ _ _ _ _ _); cbn [fst snd]; rewrite same_table_acct by reflexivity;
+          cbn [observe ob_now s_now]; rewrite Z.add_0_r, Z.eqb_refl, Ha; reflexivity.
+      + pose proof (agrees_expectation (s_acct st) (s_modes st) (s_now st) auths sigs cs W) as Ha.
+        destruct (do_check_auth _ _ _ _ _ _); cbn [fst snd]; rewrite same_table_acct by reflexivity;
+          cbn [observe ob_now s_now]; rewrite Z.add_0_r, Z.eqb_refl, Ha; reflexivity.
+      + (* SetThreshold *)
+        set (cx := if via_execute then CCall self fn_execute else CCall thr_callee fn_set_threshold).
+        set (M := if via_execute then s_modes st else mark_busy (s_modes st)).
+        assert (EO : (if via_execute then oracles_of (s_modes st) else oracles_of (mark_busy (s_modes st))) = oracles_of M)
+          by (unfold M; destruct via_execute; reflexivity).
+        rewrite EO.
+        pose proof (expectation_correct (s_acct st) M (s_now st) auths sigs [cx] W) as He.
+        destruct (do_check_auth (oracles_of M) (s_acct st) (s_now st) auths sigs [cx]) as [l1|] eqn:E1.
+        2:{ cbn [fst snd agrees_entry]. rewrite same_table_acct by reflexivity. cbn [observe ob_now]. rewrite Z.add_0_r, Z.eqb_refl.
+            destruct (expectation _ _ _ _ _ _) as [| |enf]; try reflexivity. destruct He as [l [He _]]. discriminate. }
+        destruct ((1 <=? t) && (t <=? nsig)) eqn:Eg; cbn [fst snd agrees_entry];
+          rewrite same_table_acct by reflexivity; cbn [observe ob_now s_now]; rewrite Z.add_0_r, Z.eqb_refl.
+        * rewrite andb_true_r. destruct (expectation (a_rules (s_acct st)) M (s_now st) auths sigs [cx]) as [| |enf];
+            cbn [agrees]; [discriminate|discriminate|].
+          destruct He as [l [He Hl]]. inversion He; subst l. rewrite <- Hl. apply same_enforce_filter_refl.
+        * destruct (expectation _ _ _ _ _ _); reflexivity.
+    - (* not yet deployed *)
+      assert (Ea : s_acct st = acct0) by (apply Sa; reflexivity).
+      destruct cl; cbn [step]; rewrite ?D; cbn [negb fst snd].
+      + revert Tok Hshape W' W2' Sc' Hnext Hsim. cbn [step]. rewrite D.
+        destruct (add_context_rule _ c (s_acct st) (s_now st) TDefault 0%N None signers policies) as [[[a1 r1] l1]|] eqn:E;
+          cbn [fst snd]; intros Tok _ _ _ _ _ _.
+        * rewrite Tok. cbn [andb observe ob_rules ob_now s_acct s_now]. rewrite Z.add_0_r, Z.eqb_refl. cbn [andb].
+          rewrite Ea in E. unfold add_context_rule in E. inv_bind E. inversion E; subst; clear E.
+          cbn [a_rules acct0 app r_id a_next]. rewrite Ea in Sx. cbn [a_next acct0] in Sx.
+          assert (Hlt : ms_maxid m <? 0 = true) by (apply Z.ltb_lt; lia). rewrite Hlt, rule_eqb_refl'. reflexivity.
+        * cbn [observe ob_now]. rewrite Z.add_0_r, Z.eqb_refl, (observe_acct0 types st Ea). reflexivity.
+      + destruct ((0 <=? n) && in_u32 (s_now st + n)); cbn [fst snd observe ob_now s_now];
+          rewrite ?Z.add_0_r, Z.eqb_refl; cbn [andb]; apply observe_acct0; exact Ea.
+      + cbn [observe ob_now s_now]. rewrite Z.add_0_r, Z.eqb_refl. cbn [andb]. apply observe_acct0. exact Ea.
+      + cbn [observe ob_now]. rewrite Z.add_0_r, Z.eqb_refl. cbn [andb]. apply observe_acct0. exact Ea.
+      + cbn [observe ob_now]. rewrite Z.add_0_r, Z.eqb_refl. cbn [andb]. apply observe_acct0. exact Ea.
+      + cbn [observe ob_now]. rewrite Z.add_0_r, Z.eqb_refl. cbn [andb]. apply observe_acct0. exact Ea.
+      + cbn [observe ob_now]. rewrite Z.add_0_r, Z.eqb_refl. cbn [andb]. apply observe_acct0. exact Ea.
+  Qed.
 
-Lemma monitor_accepts c types cs : forall m st i, sim2 c types m st -> swf st ->
-  mon_from c m (model_items c types st cs) i = 0%N.
-Proof.
-  induction cs as [|cl r IH]; intros m st i S W; [reflexivity|].
-  rewrite model_items_cons. cbn [mon_from]. unfold mon_step.
-  destruct S as [S0 S']. destruct (auth_step_model c types m st cl S0 W) as [H1 _]. rewrite H1.
-  rewrite (table_step_model c types m st cl (conj S0 S') W). cbn [andb].
-  apply IH; [apply sim2_step; [exact (conj S0 S')|exact W]|apply swf_step; exact W].
-Qed.
+  Lemma monitor_accepts cs : forall m st i, sim2 c types m st -> swf st -> forallb (call_covered types) cs = true ->
+    mon_from c m (model_items c types st cs) i = 0%N.
+  Proof.
+    induction cs as [|cl r IH]; intros m st i S W Hc; [reflexivity|].
+    cbn [forallb] in Hc. apply andb_prop in Hc. destruct Hc as [Hc1 Hc2].
+    rewrite model_items_cons. cbn [mon_from].
+    destruct (mon_step_model m st cl S W Hc1) as [H1 H2]. rewrite H1.
+    apply IH; [exact H2|apply swf_step; exact W|exact Hc2].
+  Qed.
+End Step.
 
-Theorem check_accepts_model c types cs : check (observe_model c types cs) = (0%N, 0%N, 0%N).
+Theorem check_accepts_model c types cs :
+  covers types cs = true -> check (observe_model c types cs) = (0%N, 0%N, 0%N).
 Proof.
+  intros Hc. unfold covers in Hc. apply andb_prop in Hc. destruct Hc as [Hne Hc].
+  assert (Hne' : types <> []) by (intros ->; discriminate).
   unfold check, observe_model. cbn [fst snd]. rewrite diff_accepts.
-  rewrite (monitor_accepts c types cs mstate0 init 0%N (sim2_init c types) swf_init). reflexivity.
+  rewrite (monitor_accepts c types Hne' cs mstate0 init 0%N (sim2_init c types) swf_init Hc). reflexivity.
 Qed.
